@@ -1292,7 +1292,13 @@ def _met_labels(spec):
     return [t[int(i) % len(t)].label for i in (spec.get('reqs') or [])[:6]]
 
 
+def _nonmem_start_repeated_transits(spec):
+    start, reqs = resolve(spec)
+    return start not in REV_STARTS and sum(1 for r in reqs if r.cat == 'TRANSITS') >= 2
+
+
 KNOWN_PREDICATES = {
+    'nonmem_start_repeated_transits': _nonmem_start_repeated_transits,
     'table_base_has_metabolite_peripheral': lambda spec: bool(spec.get('base')),
     'met_set_request': lambda spec: any(lab.startswith('PERIPHERALS(') and lab.endswith(',MET)') for lab in _met_labels(spec)),
     'drug_peripheral_request': lambda spec: any(lab in ('PERIPHERALS(0)', 'PERIPHERALS(1)', 'PERIPHERALS(2)', 'add_peripheral_compartment()', 'remove_peripheral_compartment()') for lab in _met_labels(spec)),
